@@ -591,9 +591,12 @@ static void run_grid(const Case &c, int ctor, GridRec &g) {
 //    misplaced, as seen from a vertex, by
 //        d_i = eps_old / (nn_i / 2) = 2 * OLDVORONOI_TOLERANCE * |S|^2 / nn_i .
 //    A vertex is the intersection of three planes with unit normals n1,n2,n3; offsets uncertain
-//    by d move it by <= sqrt(3) |N^-1| d, N = (n1;n2;n3); for the dihedral angles of Voronoi
-//    cells (60..120 degrees) sqrt(3)|N^-1| is 2..4.  Allowed vertex displacement of the old
-//    construction (in addition to t_i):   delta_i = 4 d_i = 8 tol |S|^2 / nn_i .
+//    by d move it by <= sqrt(3) |N^-1| d, N = (n1;n2;n3), |N^-1| ~ 1/sin(smallest dihedral angle).
+//    For compact cells (dihedral angles 60..120 degrees) sqrt(3)|N^-1| is 2..4; in a cell of
+//    extent h_i whose nearest bounding plane is nn_i/2 away (elongated boxes, anisotropic
+//    lattices) faces meet at angles down to ~nn_i/h_i, i.e. the factor grows to ~2 h_i/nn_i.
+//    Allowed vertex displacement of the old construction (in addition to t_i):
+//        delta_i = d_i * max(4, 2 h_i / nn_i)      (= 8 tol |S|^2 / nn_i for compact cells).
 //    Consequences (boundary displaced by delta over the surface S_i of a cell of size h_i):
 //        volume of a cell      |dV_i| <= delta_i S_i        (relative: kappa_i delta_i / h_i, kappa_i = S_i h_i / V_i >= 5)
 //        sum of the volumes    |sum V - V_box| <= sum_i delta_i S_i
@@ -706,7 +709,10 @@ static const LD REL_LEN = 1e-9L;
 static const LD REL_AREA = 1e-8L;
 
 // allowed vertex displacement delta_i of the old construction (see the derivation above; eps_old = tol |S|^2)
-static LD old_slack(const Geo &G, int ctor, size_t i) { return (ctor == 1 && G.nn[i] > 0) ? 8.0L * G.eps_old / G.nn[i] : 0; }
+static LD old_slack(const Geo &G, int ctor, size_t i, LD h) {
+  if (ctor != 1 || !(G.nn[i] > 0)) return 0;
+  return 2.0L * G.eps_old / G.nn[i] * std::max((LD)4, 2 * h / G.nn[i]);
+}
 
 static bool eval_grid(const Case &c, const Geo &G, const GridRec &g, int ctor, std::vector< CellGeo > &cg) {
   const size_t n = c.pos.size();
@@ -734,7 +740,7 @@ static bool eval_grid(const Case &c, const Geo &G, const GridRec &g, int ctor, s
   for (size_t i = 0; i < n; ++i) {
     const CellRec &cl = g.cells[i];
     CellGeo &q = cg[i];
-    q.h = 0; q.surf = 0; q.dmin = -1; q.slack = old_slack(G, ctor, i);
+    q.h = 0; q.surf = 0; q.dmin = -1; q.slack = 0;
     for (size_t f = 0; f < cl.faces.size(); ++f) {
       const FaceRec &fr = cl.faces[f];
       if (fr.area > 0 && std::isfinite(fr.area)) q.surf += fr.area;
@@ -751,6 +757,7 @@ static bool eval_grid(const Case &c, const Geo &G, const GridRec &g, int ctor, s
     // a convex cell of a tessellation of the box is not larger than the box: garbage output must not widen the tolerances
     if (q.h > G.diag) q.h = G.diag;
     if (q.surf > G.boxsurf) q.surf = G.boxsurf;
+    q.slack = old_slack(G, ctor, i, q.h);
     q.dd = q.dmin;
     {
       std::vector< uint32_t > nb;
